@@ -44,6 +44,8 @@ def make_job(chk, rng, i):
             g, case = tokens.base_case(chk, rng, p)      # (coverage of -7 must not depend on luck)
         else:
             seven = False
+    if i % 8 == 5 and not seven:
+        tokens.shared_nul_class(g, case, (i // 8) % 2)
     mode = i % 3
     if mode == 0:
         f = {"ret": 25, "more": 25, "less": 25}
